@@ -32,7 +32,7 @@ def run(ctx):
     ra = ctx.rule('R32.a', 'lock order rd -> bucket, release in reverse, pairing', floor=8)
     rb = ctx.rule('R32.b', 'rw_hash written only by init/fini/resize; resize only write-locked after re-check', floor=4)
     rc = ctx.rule('R32.c', 'old-table buckets mutated only under their bucket lock; unlocked on every exit', floor=8)
-    rd = ctx.rule('R32.d', 'migrated item re-inserted before unlock; old table unlinked only by the emptier', floor=4)
+    rd = ctx.rule('R32.d', 'migrated item re-inserted before unlock; old table unlinked only by the emptier', floor=3)
 
     # ---- (a)
     for name in (PFX + 'lock_bucket', PFX + 'lock_bucket_handle'):
@@ -144,7 +144,7 @@ def run(ctx):
     ok = len(ins) == 1 and found_ret and all(f.dominates(ins[0].point, r.point) for r in found_ret)
     if ok:
         item = ins[0].args[1].s
-        unlink = [s_ for s_ in f.stores() if s_.rhs is not None and s_.rhs.s == '%s->next_item' % item]
+        unlink = [s_ for s_ in f.stores() if s_.rhs is not None and s_.rhs.s == '%s->next_item' % item and s_.lhs.k != 'ref']
         inner_unlock = [x for x in unl if any(f.dominates(x.point, r.point) for r in found_ret) and f.in_loop(ins[0].block) & f.in_loop(x.block) or any(f.dominates(x.point, r.point) and f.precedes(ins[0], x) for r in found_ret)]
         ok = len(unlink) == 2 and all(f.ordered(s_, ins[0]) for s_ in unlink) and any(f.precedes(ins[0], x) for x in unl)
     rd.expect(ok, 'find_old:migrate', ins[0].loc if ins else f.where(), 'an item found in an old table must be unlinked there and inserted in the top table before the old bucket is unlocked and the item returned', note='found item: unlink -> insert in top table -> unlock -> return')
